@@ -67,6 +67,7 @@ class ValidateSubnetsLoop(LoopContract):
 @contract
 class ValidateSubnets(_Leaf):
     qualname = LQ + "_validate_subnets"
+    standin_contract = LQ + "load"      # bounded stand-in of last resort: the whole-loader tasks
 
     def setup(self, I, variant):
         n = z3.Int("doc_n_subnets")
@@ -144,6 +145,7 @@ class ValidateTopologyCols(LoopContract):
 @contract
 class ValidateTopology(_Leaf):
     qualname = LQ + "_validate_topology"
+    standin_contract = LQ + "load"      # bounded stand-in of last resort: the whole-loader tasks
 
     def setup(self, I, variant):
         nS = z3.Int("doc_nS")
@@ -196,16 +198,19 @@ class _ValidateNames(_Leaf):
 @contract
 class ValidateOs(_ValidateNames):
     qualname = LQ + "_validate_os"
+    standin_contract = LQ + "load"      # bounded stand-in of last resort: the whole-loader tasks
 
 
 @contract
 class ValidateServices(_ValidateNames):
     qualname = LQ + "_validate_services"
+    standin_contract = LQ + "load"      # bounded stand-in of last resort: the whole-loader tasks
 
 
 @contract
 class ValidateProcesses(_ValidateNames):
     qualname = LQ + "_validate_processes"
+    standin_contract = LQ + "load"      # bounded stand-in of last resort: the whole-loader tasks
 
 
 # ---- _validate_scan_cost / _parse_step_limit ------------------------------------------------------------------
@@ -213,6 +218,7 @@ class ValidateProcesses(_ValidateNames):
 @contract
 class ValidateScanCost(_Leaf):
     qualname = LQ + "_validate_scan_cost"
+    standin_contract = LQ + "load"      # bounded stand-in of last resort: the whole-loader tasks
 
     def setup(self, I, variant):
         c = z3.Real("doc_scan_cost")
@@ -232,6 +238,7 @@ class ValidateScanCost(_Leaf):
 @contract
 class ParseStepLimit(_Leaf):
     qualname = LQ + "_parse_step_limit"
+    standin_contract = LQ + "load"      # bounded stand-in of last resort: the whole-loader tasks
 
     def variants(self):
         return ["valid-absent", "valid-present", "any-present"]
@@ -354,6 +361,7 @@ class IsValidFirewallSetting(Contract):
     """result <=> the value is a list of known services without duplicates (any length).  Used as the callee contract
     at the call sites in _validate_firewall / _validate_host_config."""
     qualname = LQ + "_is_valid_firewall_setting"
+    standin_contract = LQ + "load"      # bounded stand-in of last resort: the whole-loader tasks
     bounded = False
     inline_when_concrete = True        # the bounded whole-loader tasks keep executing the real helper
     tags = {"": ("C17", "C18")}
@@ -477,6 +485,7 @@ class ConstructHostConfig(Contract):
     """the OS / service / process maps of a host: keys = the scenario's name lists in list order (what
     HostVector.vectorize and HostVector._initialize rely on), value = the host configuration's content"""
     qualname = LQ + "_construct_host_config"
+    standin_contract = LQ + "load"      # bounded stand-in of last resort: the whole-loader tasks
     callable_by_contract = False
     bounded = False
     tags = {"": ("C17", "C09", "C01")}
@@ -524,6 +533,7 @@ class GetHostValue(Contract):
     """value of a host: the sensitive_hosts entry if the address is listed there, else the configuration's `value`,
     else the documented default 0"""
     qualname = LQ + "_get_host_value"
+    standin_contract = LQ + "load"      # bounded stand-in of last resort: the whole-loader tasks
     callable_by_contract = False
     bounded = False
     tags = {"": ("C17",)}
@@ -631,6 +641,7 @@ class HasAllAddrHosts(LoopContract):
 class HasAllHostAddresses(Contract):
     """result <=> every address of the network is a key of the host-configuration section (any number of subnets/hosts)"""
     qualname = LQ + "_has_all_host_addresses"
+    standin_contract = LQ + "load"      # bounded stand-in of last resort: the whole-loader tasks
     callable_by_contract = False
     bounded = False
     tags = {"": ("C17", "C18")}
@@ -718,6 +729,7 @@ class ContainsAllRequiredFirewalls(Contract):
     """result <=> the firewall section has a rule in both directions for every connected ordered pair of distinct
     subnets (internet included), for a topology of any size.  Callee contract of _validate_firewall."""
     qualname = LQ + "_contains_all_required_firewalls"
+    standin_contract = LQ + "load"      # bounded stand-in of last resort: the whole-loader tasks
     bounded = False
     inline_when_concrete = True
     tags = {"": ("C17", "C18")}
@@ -793,6 +805,7 @@ class ValidateFirewall(_Leaf):
     every connection and every rule is a duplicate-free list of known services.  Verified against the CONTRACTS of
     _contains_all_required_firewalls and _is_valid_firewall_setting (modular)."""
     qualname = LQ + "_validate_firewall"
+    standin_contract = LQ + "load"      # bounded stand-in of last resort: the whole-loader tasks
 
     def setup(self, I, variant):
         from pyvc.values import SymDict
@@ -835,6 +848,7 @@ class ValidateFirewall(_Leaf):
 class ValidateHostAddress(_Leaf):
     """host-firewall key: accepted iff it evaluates to a pair of ints that is an address of the network"""
     qualname = LQ + "_validate_host_address"
+    standin_contract = LQ + "load"      # bounded stand-in of last resort: the whole-loader tasks
 
     def setup(self, I, variant):
         nS, key = size_var(I, "doc_nS", len(CONC_SUBNETS)), z3.Int("doc_key")
@@ -971,6 +985,7 @@ class ValidateSensitiveHosts(_Leaf):
     """sensitive_hosts section with any number of entries: accepted iff non-empty, not more entries than hosts, every
     key a valid address, every value a positive number, no address twice"""
     qualname = LQ + "_validate_sensitive_hosts"
+    standin_contract = LQ + "load"      # bounded stand-in of last resort: the whole-loader tasks
 
     def setup(self, I, variant):
         from pyvc.values import SymDict
@@ -1054,6 +1069,7 @@ class ParseSensitiveHosts(Contract):
     """the sensitive_hosts section of any size: after validation the loader holds it re-keyed by the parsed address
     tuples, with the file's values (what Scenario / Network / the goal test read)"""
     qualname = LQ + "_parse_sensitive_hosts"
+    standin_contract = LQ + "load"      # bounded stand-in of last resort: the whole-loader tasks
     callable_by_contract = False
     bounded = False
     tags = {"": ("C17",)}
@@ -1207,12 +1223,14 @@ class _ValidateSingleDef(Contract):
 @contract
 class ValidateSingleExploit(_ValidateSingleDef):
     qualname = LQ + "_validate_single_exploit"
+    standin_contract = LQ + "load"      # bounded stand-in of last resort: the whole-loader tasks
     target_key, target_list = "service", "services"
 
 
 @contract
 class ValidateSinglePrivesc(_ValidateSingleDef):
     qualname = LQ + "_validate_single_privesc"
+    standin_contract = LQ + "load"      # bounded stand-in of last resort: the whole-loader tasks
     target_key, target_list = "process", "processes"
 
 
@@ -1302,6 +1320,7 @@ class _ValidateSection(_Leaf):
 class ValidateExploits(_ValidateSection):
     """exploits section with any number of definitions (empty allowed): accepted iff every definition is valid"""
     qualname = LQ + "_validate_exploits"
+    standin_contract = LQ + "load"      # bounded stand-in of last resort: the whole-loader tasks
     target_key, target_list = "service", "services"
 
 
@@ -1309,6 +1328,7 @@ class ValidateExploits(_ValidateSection):
 class ValidatePrivescs(_ValidateSection):
     """privilege_escalation section with any number of definitions (empty allowed): accepted iff every one is valid"""
     qualname = LQ + "_validate_privescs"
+    standin_contract = LQ + "load"      # bounded stand-in of last resort: the whole-loader tasks
     target_key, target_list = "process", "processes"
 
 
@@ -1396,6 +1416,7 @@ class ValidateHostConfig(_Leaf):
     processes are known and duplicate-free, the OS is known, the host firewall (if any) maps addresses of the network
     to valid rules, and the value (if any) is a number that agrees with the declared one for a sensitive host"""
     qualname = LQ + "_validate_host_config"
+    standin_contract = LQ + "load"      # bounded stand-in of last resort: the whole-loader tasks
 
     def variants(self):
         return [f"{v}/{fw}/{val}" for v in ("valid", "any") for fw in ("firewall", "no-firewall") for val in ("value", "no-value")]
